@@ -879,6 +879,45 @@ func hasDepthGuard(p *Program, comp []*ssa.Function) (bool, string) {
 			}
 		}
 	}
+	// a counter counts the depth only if nothing inside the component sets it
+	// to anything but one more, one less, or a value it had before (saved and
+	// put back): a reset to zero at the entry of a function of the component
+	// starts the count again at every level, and the limit is never reached
+	for k := range counters {
+		okCounter := true
+		for _, f := range comp {
+			for _, b := range f.Blocks {
+				for _, ins := range b.Instrs {
+					st, ok := ins.(*ssa.Store)
+					if !ok || fieldKey(st.Addr) != k {
+						continue
+					}
+					fine := false
+					if bo, ok := st.Val.(*ssa.BinOp); ok && (bo.Op == token.ADD || bo.Op == token.SUB) {
+						if n, ok := constInt(bo.Y); ok && n == 1 {
+							fine = true
+						}
+					}
+					if !fine {
+						os := origins(st.Val)
+						fine = len(os) > 0
+						for _, o := range os {
+							u, ok := o.(*ssa.UnOp)
+							if !ok || u.Op != token.MUL || fieldKey(u.X) != k {
+								fine = false
+							}
+						}
+					}
+					if !fine {
+						okCounter = false
+					}
+				}
+			}
+		}
+		if !okCounter {
+			delete(counters, k)
+		}
+	}
 	cg := p.CallGraph()
 	// the guarded call sites: behind a test of an incremented counter against a
 	// constant whose other side returns without calling back into the component
@@ -2145,16 +2184,94 @@ func structuralTreeWalk(comp []*ssa.Function) bool {
 	for _, f := range comp {
 		in[f] = true
 	}
+	// a member that is handed no node but a piece of work — it calls a
+	// parameter of function type and otherwise nothing of the component
+	// (`withFreshBuffer(func() error { … })`): it passes on whatever the
+	// function literals of the component do, without descending itself
+	carrier := map[*ssa.Function]bool{}
 	for _, f := range comp {
 		if f.Parent() != nil {
-			return false
+			continue
 		}
-		// the node parameters: the parameters of an ast type (a part of the
-		// walk may be handed several pieces of one node)
-		var nodes []*ssa.Parameter
+		hasNode, hasFuncParam, callsIn := false, false, false
 		for _, pr := range f.Params {
 			if isASTish(pr.Type()) || isASTList(pr.Type()) {
-				nodes = append(nodes, pr)
+				hasNode = true
+			}
+			if _, ok := pr.Type().Underlying().(*types.Signature); ok {
+				hasFuncParam = true
+			}
+		}
+		for _, b := range f.Blocks {
+			for _, ins := range b.Instrs {
+				if cc := callOf(ins); cc != nil && cc.StaticCallee() != nil && in[cc.StaticCallee()] {
+					callsIn = true
+				}
+			}
+		}
+		if !hasNode && hasFuncParam && !callsIn {
+			carrier[f] = true
+			for _, g := range comp {
+				if g.Parent() != nil {
+					same[f] = append(same[f], g)
+				}
+			}
+		}
+	}
+	for _, f := range comp {
+		if carrier[f] {
+			continue
+		}
+		// the node parameters: the parameters of an ast type (a part of the
+		// walk may be handed several pieces of one node); for a function
+		// literal, the nodes it captured — each bound, where the literal is
+		// made, to a part of the node of the function that makes it
+		var nodes []ssa.Value
+		if f.Parent() != nil {
+			if !in[f.Parent()] {
+				return false
+			}
+			var parentNodes []ssa.Value
+			for _, pr := range f.Parent().Params {
+				if isASTish(pr.Type()) || isASTList(pr.Type()) {
+					parentNodes = append(parentNodes, pr)
+				}
+			}
+			for i, fv := range f.FreeVars {
+				if !(isASTish(fv.Type()) || isASTList(fv.Type()) || isASTish(deref(fv.Type()))) {
+					continue
+				}
+				bound := false
+				for _, pb := range f.Parent().Blocks {
+					for _, ins := range pb.Instrs {
+						mc, ok := ins.(*ssa.MakeClosure)
+						if !ok || mc.Fn != ssa.Value(f) || i >= len(mc.Bindings) {
+							continue
+						}
+						okPart := false
+						for _, nd := range parentNodes {
+							if directPart(mc.Bindings[i], nd, 0) == "" {
+								okPart = true
+							}
+						}
+						if !okPart {
+							return false
+						}
+						bound = true
+					}
+				}
+				if !bound {
+					return false
+				}
+				nodes = append(nodes, fv)
+			}
+			// the function that makes the literal hands it on without descending
+			same[f.Parent()] = append(same[f.Parent()], f)
+		} else {
+			for _, pr := range f.Params {
+				if isASTish(pr.Type()) || isASTList(pr.Type()) {
+					nodes = append(nodes, pr)
+				}
 			}
 		}
 		if len(nodes) == 0 {
@@ -2174,6 +2291,10 @@ func structuralTreeWalk(comp []*ssa.Function) bool {
 			for _, ins := range b.Instrs {
 				cc := callOf(ins)
 				if cc == nil {
+					continue
+				}
+				if cal := cc.StaticCallee(); cal != nil && carrier[cal] {
+					same[f] = append(same[f], cal)
 					continue
 				}
 				var callee *ssa.Function
